@@ -354,7 +354,7 @@ class SnootyToTroffTree:
             )
             names.append(ManNode(ManNode.ElementType.TEXT, ", "))
 
-        if names[-1].element is ManNode.ElementType.TEXT:
+        if names and names[-1].element is ManNode.ElementType.TEXT:
             names.pop()
 
         return [
